@@ -177,7 +177,7 @@ def judge_matrix(case) -> Outcome:
         except Exception as e:  # noqa: BLE001
             out.fail("c11.matrix_raised", f"{tag} sparse={sparse}: {type(e).__name__}: {str(e)[:150]}")
             return out
-        mats[sparse] = (M, F, K)
+        mats[sparse] = (M, F, K, KF)
         if M.shape != (n, n - 1):
             out.fail("c11.shape", f"{tag} sparse={sparse}: coding matrix shape {M.shape}")
             return out
@@ -223,6 +223,20 @@ def judge_matrix(case) -> Outcome:
     st = ContrastsState(c, levels)
     if not np.allclose(arr(st.get_coding_matrix()), mats[False][0]) or not np.allclose(arr(st.get_coefficient_matrix()), mats[False][2]):
         out.fail("c11.contrasts_state", f"{tag}: ContrastsState matrices differ from the contrast's own")
+    # ... for every option of the introspection calls (rank, storage)
+    for sparse in (False, True):
+        if sparse not in mats:
+            continue
+        for rr, (im, ik) in ((True, (0, 2)), (False, (1, 3))):
+            try:
+                a = arr(st.get_coding_matrix(reduced_rank=rr, sparse=sparse))
+                b = arr(st.get_coefficient_matrix(reduced_rank=rr, sparse=sparse))
+                if n == 1:
+                    b = b.reshape(1, 1)
+                if a.shape != mats[sparse][im].shape or not np.allclose(a, mats[sparse][im]) or b.shape != mats[sparse][ik].shape or not np.allclose(b, mats[sparse][ik]):
+                    out.fail("c11.contrasts_state", f"{tag}: ContrastsState matrices (reduced_rank={rr}, sparse={sparse}) differ from the contrast's own")
+            except Exception as e:  # noqa: BLE001
+                out.fail("c11.contrasts_state", f"{tag}: ContrastsState (reduced_rank={rr}, sparse={sparse}): {type(e).__name__}: {str(e)[:100]}")
     return out
 
 
